@@ -6,22 +6,47 @@ What is translated (as Gallina terms generic over the record `rops` of Model/Rop
       - `<wavetype>_amplitude O s_amplitude0 s_phase0 s_offset0 (n : Z) : RT O`     from `_amplitude_coefficient`
       - `<wavetype>_phase     O s_amplitude0 s_phase0 s_offset0 (n : Z) : RT O`     from `_phase_coefficient`
         of the harmonics class `fourier_series_mapping[K]`
+  * the generic methods of AbstractHarmonicCoefficients, each as a function of the two abstract methods
+    (`m_amplitude_coefficient m_phase_coefficient : Z -> RT O`, i.e. `self._amplitude_coefficient`, `self._phase_coefficient`):
+      - `abstract_amplitude`, `abstract_phase`, `abstract_a`, `abstract_b : .. -> Z -> RT O`
+      - `abstract_c : .. -> Z -> RT O * RT O`      (a complex number is the pair (re, im))
+    Theory/PeriodicGenThm.v / Properties/C08c.v prove them equal to amplitude / phase / coef_a / coef_b / coef_c of
+    Model/Harmonics.v.  `amplitude` and `phase` may call only the two abstract methods; `a`, `b`, `c` may also call
+    `amplitude` and `phase` (no recursion).
+  * `periodic_function(wavetype)` as `lookup_periodic_function : list N -> N + list N`  (inl class index | inr name of the
+    exception class raised), proved equal to periodic_function of Model/Harmonics.v.  Two shapes are accepted:
+        try: return [pf for pf in periodic_functions if pf.wavetype == wavetype][0]          (head of the filtered list,
+        except IndexError: raise E(<message>)                                                 E when it is empty)
+      and
+        for pf in periodic_functions:                                                        (List.find)
+            if pf.wavetype == wavetype: return pf
+        raise E(<message>)
+    `pf.wavetype` is the dataclass default of the class (table `wavetypes`); the message text is not modelled.
   * the tables `time_classes`, `harmonics_classes`, `wavetypes`, `harmonics_of`, `periodic_functions` and the
     dispatch functions `time_function`, `amplitude_coefficient`, `phase_coefficient` (class index -> term).
-What is NOT translated but *pinned* (the hand-written model Model/Harmonics.v mirrors these; any change of
-their AST makes the translator fail, hence the build): `AbstractHarmonicCoefficients.{amplitude,phase,a,b,c}`,
-`fourier_series`, `periodic_function`, the assignment `periodic_functions = list(fourier_series_mapping.keys())`.
+What is NOT translated but *pinned* (the hand-written model Model/Harmonics.v mirrors these; any change of their AST makes
+the translator fail, hence the build): the dataclass header, the three fields and the two @abstractmethod stubs of
+`AbstractHarmonicCoefficients`; `fourier_series`; the assignment `periodic_functions = list(fourier_series_mapping.keys())`.
 
 Accepted Python subset (everything else raises v2lib.Unsupported naming file:line and the construct):
-  statements   coefficient methods:  ( `if <cmp>: return <expr>` )*  `return <expr>`
-               time_function:        ( `<name> = <expr>` | `<name> = lambda <x>: <expr>` )*  (single assignment, no shadowing)
-                                     `return lambda <x>: <expr>`  |  `return np.vectorize(lambda <x>: <expr>)`
+  statements   a BLOCK is   ( `<name> = <expr>`  |  `if <cmp>: BLOCK` )*  `return <expr>`
+               (single assignment, no shadowing; an `if` has no `else` and its body is itself a block, i.e. returns on every
+               path, so the statements after it are its else-branch; nothing may follow a `return`).
+               coefficient methods and the generic methods amplitude / phase / a / b / c:  a block, one int parameter
+               time_function:  ( `<name> = <expr>` | `<name> = lambda <x>: <expr>` | `def <name>(<x>[: T]) [-> T]: BLOCK` )*
+                               `return F`  |  `return np.vectorize(F)`     with F a `lambda <x>: <expr>` or the name of a local
+                               function defined before (a local `def` or a lambda binding; it is not recursive, it sees the
+                               enclosing locals bound before it and `self`, and its own locals are not visible outside)
   expressions  int and float constants; parameter names; local bindings; `self.<dataclass float field>`; `np.pi`;
                unary `-`; binary `+ - * /` (`/` is always real division; int (op) int stays an integer for `+ - *`);
                `%` (Z.modulo on two ints, `rmod` otherwise); `np.cos(e)`, `np.sin(e)`, `np.mod(e1, e2)`;
-               `np.ones(<lambda-var>.shape)` (read as 1); call of a local lambda binding with one argument;
-               conditional expression `a if c else b`;
-               comparison with ONE operator: ints `== != < <= > >=`, reals `< <= > >=`.
+               `np.ones(<lambda-var>.shape)` (read as 1); call of a local function with one argument;
+               conditional expression `a if c else b` (c a comparison or a local bound to one);
+               comparison with ONE operator: ints `== != < <= > >=`, reals `< <= > >=`; a local may be bound to a comparison.
+               in the generic methods only:  `self.<method>(<int expr>)`;  the literal `1j`, `-<unit>`, `<unit> if c else <unit>`
+               (a unit is +1j or -1j; Coq: a bool, true = -1j);  `<unit> * <real>` / `<real> * <unit>` (purely imaginary: the
+               real y resp. `ropp y`);  `np.exp(<purely imaginary>)` = (rcos y, rsin y);  `<real> * <complex>` = the pair
+               scaled componentwise (signed zeros / inf / nan of the float arithmetic are not modelled).
 An integer expression used where a real is needed is coerced with `rofZ`.
 """
 import ast
@@ -35,33 +60,13 @@ TIME_FIELDS = ['period', 'amplitude', 'phase', 'offset']      # float fields of 
 ABSTRACT = 'AbstractHarmonicCoefficients'
 
 # ---- pinned (hand-modelled) definitions: Model/Harmonics.v mirrors exactly this text --------------------------------
+# AbstractHarmonicCoefficients without its five generic methods (those are translated)
 PINNED_ABSTRACT = '''
 @dataclass
 class AbstractHarmonicCoefficients(ABC):
     amplitude0: float = 1
     phase0: float = 0
     offset0: float = 0
-
-    def amplitude(self, n: int) -> float:
-        if n < 0:
-            return self._amplitude_coefficient(-n)
-        return self._amplitude_coefficient(n)
-
-    def phase(self, n: int) -> float:
-        if n < 0:
-            return -self._phase_coefficient(-n)
-        return self._phase_coefficient(n)
-
-    def a(self, n: int) -> float:
-        return self.amplitude(n)*np.cos(self.phase(n))
-
-    def b(self, n: int) -> float:
-        return -self.amplitude(n)*np.sin(self.phase(n))
-
-    def c(self, n: int) -> complex:
-        if n < 0:
-            return self.amplitude(-n)/2*np.exp(-1j*self.phase(-n))
-        return self.amplitude(n)/2*np.exp(1j*self.phase(n))
 
     @abstractmethod
     def _amplitude_coefficient(self, n: int) -> float:
@@ -71,23 +76,20 @@ class AbstractHarmonicCoefficients(ABC):
     def _phase_coefficient(self, n: int) -> float:
         ...
 '''
+GENERIC_METHODS = ['amplitude', 'phase', 'a', 'b', 'c']            # translated, in this order
+ABSTRACT_METHODS = ['_amplitude_coefficient', '_phase_coefficient']
 PINNED_FUNCS = '''
 def fourier_series(time_function: PeriodicFunction) -> HarmonicCoefficients:
     try:
         return fourier_series_mapping[type(time_function)](amplitude0=time_function.amplitude, phase0=time_function.phase, offset0=time_function.offset)
     except KeyError:
         raise TransformationError(f'No fourier coefficents found for time function of type {type(time_function).__name__}')
-
-def periodic_function(wavetype: str) -> Type[PeriodicFunction]:
-    try:
-        return [pf for pf in periodic_functions if pf.wavetype == wavetype][0]
-    except IndexError:
-        raise UnknownWavetype(f'Periodic function of type {wavetype} is unknown.')
 '''
 PINNED_ASSIGN = 'list(fourier_series_mapping.keys())'
 # names whose (re)definition at module level would change the meaning of the pinned/translated code
 EXPECTED_TOPLEVEL_CLASSES_EXTRA = {'UnknownWavetype', 'TransformationError', 'PeriodicFunction', 'HarmonicCoefficients',
                                    ABSTRACT}
+EXPECTED_EXCEPTIONS = {'UnknownWavetype', 'TransformationError'}     # module-level `class E(Exception): ...`
 EXPECTED_TOPLEVEL_FUNCS = {'fourier_series', 'periodic_function'}
 EXPECTED_TOPLEVEL_ASSIGNS = {'PeriodicFunctionList', 'fourier_series_mapping', 'periodic_functions'}
 EXPECTED_IMPORTS = [
@@ -105,11 +107,13 @@ def _dump(node):
 
 # ---- expression translator ------------------------------------------------------------------------------------------
 class Ctx:
-    """name environment of one function body.  kinds: 'Z' integer, 'R' real, 'F' local real->real lambda"""
+    """name environment of one function body.  kinds: 'Z' integer, 'R' real, 'B' comparison result, 'F' local real->real
+    function, 'J' imaginary unit (+1j / -1j; Coq bool, true = -1j)"""
 
-    def __init__(self, path, fields):
+    def __init__(self, path, fields, methods=None):
         self.path = path
         self.fields = fields          # names allowed as self.<field> (all real)
+        self.methods = methods or {}  # names allowed as self.<method>(<int>) -> Coq function Z -> RT O   (generic methods only)
         self.env = {}                 # python name -> (kind, coq identifier)
 
     def bind(self, node, name, kind):
@@ -136,7 +140,7 @@ def to_real(tv):
         return text
     if ty == 'Z':
         return f'(rofZ O {text})'
-    raise Unsupported(f'internal: cannot coerce {ty} to real')
+    raise Unsupported(f'a value of kind {ty} used as a real number')
 
 
 def expr(node, cx):
@@ -144,6 +148,8 @@ def expr(node, cx):
     w = where(node, cx.path)
     if isinstance(node, ast.Constant):
         v = node.value
+        if isinstance(v, complex) and cx.methods and v == 1j:
+            return ('false', 'J')                          # the imaginary unit +1j
         if isinstance(v, bool) or not isinstance(v, (int, float)):
             raise Unsupported(f'{w}: constant {v!r}')
         if isinstance(v, int):
@@ -180,13 +186,25 @@ def expr(node, cx):
             return (f'(Z.opp {t})', 'Z')
         if ty == 'R':
             return (f'(ropp O {t})', 'R')
-        raise Unsupported(f'{w}: unary minus on a boolean')
+        if ty == 'J':
+            return ({'false': 'true', 'true': 'false'}.get(t, f'(negb {t})'), 'J')
+        raise Unsupported(f'{w}: unary minus on a value of kind {ty}')
     if isinstance(node, ast.BinOp):
         l, r = expr(node.left, cx), expr(node.right, cx)
-        if 'B' in (l[1], r[1]):
-            raise Unsupported(f'{w}: arithmetic on a boolean')
-        both_int = l[1] == 'Z' and r[1] == 'Z'
         op = type(node.op)
+        if op is ast.Mult and 'J' in (l[1], r[1]):
+            # <unit> * <real>: the purely imaginary number with imaginary part +-real
+            u, x = (l, r) if l[1] == 'J' else (r, l)
+            if x[1] not in ('Z', 'R'):
+                raise Unsupported(f'{w}: imaginary unit multiplied with a value of kind {x[1]}')
+            y = to_real(x)
+            return ({'false': y, 'true': f'(ropp O {y})'}.get(u[0], f'(if {u[0]} then (ropp O {y}) else {y})'), 'I')
+        if op is ast.Mult and l[1] in ('Z', 'R') and r[1] == 'C':
+            k = to_real(l)
+            return ((f'(rmul O {k} {r[0][0]})', f'(rmul O {k} {r[0][1]})'), 'C')
+        if l[1] not in ('Z', 'R') or r[1] not in ('Z', 'R'):
+            raise Unsupported(f'{w}: arithmetic {op.__name__} on values of kinds {l[1]}, {r[1]}')
+        both_int = l[1] == 'Z' and r[1] == 'Z'
         if op in (ast.Add, ast.Sub, ast.Mult):
             zname, rname = {ast.Add: ('Z.add', 'radd'), ast.Sub: ('Z.sub', 'rsub'), ast.Mult: ('Z.mul', 'rmul')}[op]
             if both_int:
@@ -204,8 +222,10 @@ def expr(node, cx):
         if c[1] != 'B':
             raise Unsupported(f'{w}: condition of a conditional expression is not a comparison')
         a, b = expr(node.body, cx), expr(node.orelse, cx)
-        if 'B' in (a[1], b[1]):
-            raise Unsupported(f'{w}: boolean-valued conditional expression')
+        if a[1] == 'J' and b[1] == 'J':
+            return (f'(if {c[0]} then {a[0]} else {b[0]})', 'J')
+        if a[1] not in ('Z', 'R') or b[1] not in ('Z', 'R'):
+            raise Unsupported(f'{w}: conditional expression with branches of kinds {a[1]}, {b[1]}')
         if a[1] == 'Z' and b[1] == 'Z':
             return (f'(if {c[0]} then {a[0]} else {b[0]})', 'Z')
         return (f'(if {c[0]} then {to_real(a)} else {to_real(b)})', 'R')
@@ -213,8 +233,8 @@ def expr(node, cx):
         if len(node.ops) != 1 or len(node.comparators) != 1:
             raise Unsupported(f'{w}: chained comparison')
         l, r = expr(node.left, cx), expr(node.comparators[0], cx)
-        if 'B' in (l[1], r[1]):
-            raise Unsupported(f'{w}: comparison of booleans')
+        if l[1] not in ('Z', 'R') or r[1] not in ('Z', 'R'):
+            raise Unsupported(f'{w}: comparison of values of kinds {l[1]}, {r[1]}')
         op = type(node.ops[0])
         if l[1] == 'Z' and r[1] == 'Z':
             tab = {ast.Eq: 'Z.eqb {0} {1}', ast.NotEq: 'negb (Z.eqb {0} {1})', ast.Lt: 'Z.ltb {0} {1}',
@@ -238,6 +258,21 @@ def expr(node, cx):
             if len(node.args) != 2:
                 raise Unsupported(f'{w}: np.mod with {len(node.args)} arguments')
             return (f'(rmod O {to_real(_arith(node.args[0], cx))} {to_real(_arith(node.args[1], cx))})', 'R')
+        if _is_np(f, 'exp') and cx.methods:
+            if len(node.args) != 1:
+                raise Unsupported(f'{w}: np.exp with {len(node.args)} arguments')
+            y = expr(node.args[0], cx)
+            if y[1] != 'I':
+                raise Unsupported(f'{w}: np.exp of anything but <+-1j> * <real>')
+            return ((f'(rcos O {y[0]})', f'(rsin O {y[0]})'), 'C')
+        if isinstance(f, ast.Attribute) and isinstance(f.value, ast.Name) and f.value.id == 'self' and 'self' not in cx.env \
+                and f.attr in cx.methods:
+            if len(node.args) != 1:
+                raise Unsupported(f'{w}: self.{f.attr} with {len(node.args)} arguments')
+            a = expr(node.args[0], cx)
+            if a[1] != 'Z':
+                raise Unsupported(f'{w}: self.{f.attr} applied to a value of kind {a[1]} (an int is expected)')
+            return (f'({cx.methods[f.attr]} {a[0]})', 'R')
         if _is_np(f, 'ones'):
             a = node.args
             if len(a) == 1 and isinstance(a[0], ast.Attribute) and a[0].attr == 'shape' \
@@ -254,8 +289,8 @@ def expr(node, cx):
 
 def _arith(node, cx):
     tv = expr(node, cx)
-    if tv[1] == 'B':
-        raise Unsupported(f'{where(node, cx.path)}: boolean used as a number')
+    if tv[1] not in ('Z', 'R'):
+        raise Unsupported(f'{where(node, cx.path)}: value of kind {tv[1]} used as a real number')
     return tv
 
 
@@ -283,31 +318,71 @@ def plain_params(fn, path, n):
     return [x.arg for x in a.args[1:]]
 
 
-def coefficient_body(fn, path, fields):
-    """( if <cmp>: return e )* return e   with one int parameter"""
+def block(stmts, cx, want, owner, ind='  '):
+    """BLOCK = ( `<name> = <expr>` | `if <cmp>: BLOCK` )* `return <expr>`  ->  Coq term of kind `want` ('R' real, 'C' pair)"""
+    if not stmts:
+        raise Unsupported(f'{where(owner, cx.path)}: a path ends without `return <expr>`')
+    st, rest = stmts[0], stmts[1:]
+    w = where(st, cx.path)
+    if isinstance(st, ast.Return):
+        if st.value is None or rest:
+            raise Unsupported(f'{w}: bare `return`, or a statement after `return`')
+        v = expr(st.value, cx)
+        if want == 'C':
+            if v[1] != 'C':
+                raise Unsupported(f'{w}: returned value of kind {v[1]} where a complex number is expected')
+            return f'({v[0][0]},\n{ind} {v[0][1]})'
+        if v[1] not in ('Z', 'R'):
+            raise Unsupported(f'{w}: returned value of kind {v[1]} where a real number is expected')
+        return to_real(v)
+    if isinstance(st, ast.Assign):
+        if not (len(st.targets) == 1 and isinstance(st.targets[0], ast.Name)):
+            raise Unsupported(f'{w}: assignment target (only `<name> = <expr>` is allowed)')
+        v = expr(st.value, cx)
+        if v[1] not in ('Z', 'R', 'B', 'J'):
+            raise Unsupported(f'{w}: a local cannot be bound to a value of kind {v[1]}')
+        coq = cx.bind(st, st.targets[0].id, v[1])
+        return f'let {coq} := {v[0]} in\n{ind}' + block(rest, cx, want, owner, ind)
+    if isinstance(st, ast.If):
+        if st.orelse:
+            raise Unsupported(f'{w}: `if` with `else` (write the else-branch after the returning `if`)')
+        c = expr(st.test, cx)
+        if c[1] != 'B':
+            raise Unsupported(f'{w}: `if` condition is not a comparison')
+        saved = dict(cx.env)
+        a = block(st.body, cx, want, st, ind + '  ')             # returns on every path: the rest is the else-branch
+        cx.env = saved
+        if not (len(st.body) == 1 and isinstance(st.body[0], ast.Return) and want == 'R'):
+            a = f'({a})'
+        return f'if {c[0]} then {a}\n{ind}else ' + block(rest, cx, want, owner, ind)
+    raise Unsupported(f'{w}: statement {type(st).__name__} (a block is `<name> = <expr>` / `if <cmp>: <block>` / `return <expr>`)')
+
+
+def coefficient_body(fn, path, fields, methods=None, want='R'):
+    """a block with one int parameter (named n in Coq)"""
     if fn.decorator_list:
         raise Unsupported(f'{where(fn, path)}: decorator on {fn.name}')
     (param,) = plain_params(fn, path, 2)
-    cx = Ctx(path, fields)
+    cx = Ctx(path, fields, methods)
     cx.env[param] = ('Z', 'n')
-    if not fn.body:
-        raise Unsupported(f'{where(fn, path)}: empty body')
-    arms = []
-    for st in fn.body[:-1]:
-        if not (isinstance(st, ast.If) and not st.orelse and len(st.body) == 1 and isinstance(st.body[0], ast.Return)
-                and st.body[0].value is not None):
-            raise Unsupported(f'{where(st, path)}: statement {type(st).__name__} (only `if c: return e` allowed here)')
-        c = expr(st.test, cx)
-        if c[1] != 'B':
-            raise Unsupported(f'{where(st, path)}: `if` condition is not a comparison')
-        arms.append((c[0], to_real(_arith(st.body[0].value, cx))))
-    last = fn.body[-1]
-    if not (isinstance(last, ast.Return) and last.value is not None):
-        raise Unsupported(f'{where(last, path)}: function must end in `return <expr>`')
-    out = to_real(_arith(last.value, cx))
-    for c, e in reversed(arms):
-        out = f'if {c} then {e}\n  else {out}'
-    return out
+    return block(fn.body, cx, want, fn)
+
+
+def local_function(st, cx):
+    """def <name>(<x>[: T]) [-> T]: BLOCK   ->  'fun v_x : RT O => <block>'"""
+    w = where(st, cx.path)
+    a = st.args
+    if st.decorator_list or a.posonlyargs or a.kwonlyargs or a.vararg or a.kwarg or a.defaults or a.kw_defaults \
+            or len(a.args) != 1:
+        raise Unsupported(f'{w}: local function {st.name}: decorators / parameter list (one plain parameter is allowed)')
+    for ann in (a.args[0].annotation, st.returns):
+        if ann is not None and not (isinstance(ann, ast.Name) and ann.id in ('float', 'int')):
+            raise Unsupported(f'{w}: local function {st.name}: annotation {ast.unparse(ann)}')
+    saved = dict(cx.env)
+    coq = cx.bind(st, a.args[0].arg, 'R')
+    body = block(st.body, cx, 'R', st, '    ')
+    cx.env = saved                                               # parameter and locals of the function end here
+    return f'(fun {coq} : RT O =>\n    {body})'
 
 
 def time_function_body(fn, path):
@@ -319,8 +394,14 @@ def time_function_body(fn, path):
     if not fn.body:
         raise Unsupported(f'{where(fn, path)}: empty body')
     for st in fn.body[:-1]:
+        if isinstance(st, ast.FunctionDef):
+            val = local_function(st, cx)
+            coq = cx.bind(st, st.name, 'F')                      # bound after its body: not recursive
+            lets.append(f'let {coq} := {val} in')
+            continue
         if not (isinstance(st, ast.Assign) and len(st.targets) == 1 and isinstance(st.targets[0], ast.Name)):
-            raise Unsupported(f'{where(st, path)}: statement {type(st).__name__} (only `<name> = <expr>` allowed here)')
+            raise Unsupported(f'{where(st, path)}: statement {type(st).__name__} (only `<name> = <expr>` and local '
+                              f'`def` are allowed here)')
         name = st.targets[0].id
         if isinstance(st.value, ast.Lambda):
             val = lambda_real(st.value, cx)
@@ -331,14 +412,90 @@ def time_function_body(fn, path):
         lets.append(f'let {coq} := {val} in')
     last = fn.body[-1]
     if not (isinstance(last, ast.Return) and last.value is not None):
-        raise Unsupported(f'{where(last, path)}: time_function must end in `return <lambda>`')
+        raise Unsupported(f'{where(last, path)}: time_function must end in `return <function>`')
     v = last.value
     if isinstance(v, ast.Call) and _is_np(v.func, 'vectorize'):
         if v.keywords or len(v.args) != 1:
             raise Unsupported(f'{where(v, path)}: np.vectorize arguments')
         v = v.args[0]
-    lets.append(lambda_real(v, cx))
+    if isinstance(v, ast.Name):
+        if cx.env.get(v.id, ('', ''))[0] != 'F':
+            raise Unsupported(f'{where(v, path)}: time_function returns {v.id!r}, which is not a local function')
+        lets.append(cx.env[v.id][1])
+    else:
+        lets.append(lambda_real(v, cx))
     return '\n  '.join(lets)
+
+
+def _is_wavetype_test(test, pf, param):
+    """`<pf>.wavetype == <param>` (either order)"""
+    if not (isinstance(test, ast.Compare) and len(test.ops) == 1 and isinstance(test.ops[0], ast.Eq)):
+        return False
+    sides = [test.left, test.comparators[0]]
+
+    def attr(e):
+        return isinstance(e, ast.Attribute) and e.attr == 'wavetype' and isinstance(e.value, ast.Name) and e.value.id == pf
+
+    def par(e):
+        return isinstance(e, ast.Name) and e.id == param
+    return (attr(sides[0]) and par(sides[1])) or (par(sides[0]) and attr(sides[1]))
+
+
+def _raised_class(st, known):
+    """`raise E(<one string / f-string argument>)` -> 'E'  (None when the statement is something else)"""
+    if not (isinstance(st, ast.Raise) and st.cause is None and isinstance(st.exc, ast.Call)
+            and isinstance(st.exc.func, ast.Name) and st.exc.func.id in known and not st.exc.keywords
+            and len(st.exc.args) == 1 and isinstance(st.exc.args[0], (ast.JoinedStr, ast.Constant))):
+        return None
+    return st.exc.func.id
+
+
+def lookup_body(fn, path, exceptions):
+    """periodic_function(wavetype) -> (comment, Coq term over v_wavetype); see the module docstring for the two shapes"""
+    w = where(fn, path)
+    a = fn.args
+    if fn.decorator_list or a.posonlyargs or a.kwonlyargs or a.vararg or a.kwarg or a.defaults or a.kw_defaults \
+            or len(a.args) != 1:
+        raise Unsupported(f'{w}: parameter list / decorators of {fn.name}')
+    param = a.args[0].arg
+    test_coq = ('(fun v_pf => match class_wavetype v_pf with Some w => label_eqb w v_wavetype | None => false end)')
+
+    def err(e):
+        return f'inr {coq_string_codes(e)} (* {e} *)'
+    body = fn.body
+    # shape 1: try: return [pf for pf in periodic_functions if <test>][0] / except IndexError: raise E(..)
+    if len(body) == 1 and isinstance(body[0], ast.Try):
+        t = body[0]
+        ok = not t.orelse and not t.finalbody and len(t.handlers) == 1 and len(t.body) == 1 and len(t.handlers[0].body) == 1 \
+            and isinstance(t.handlers[0].type, ast.Name) and t.handlers[0].type.id == 'IndexError' and t.handlers[0].name is None \
+            and isinstance(t.body[0], ast.Return) and isinstance(t.body[0].value, ast.Subscript)
+        e = _raised_class(t.handlers[0].body[0], exceptions) if ok else None
+        if ok and e:
+            sub = t.body[0].value
+            lc = sub.value
+            if isinstance(sub.slice, ast.Constant) and sub.slice.value == 0 and not isinstance(sub.slice.value, bool) \
+                    and isinstance(lc, ast.ListComp) and len(lc.generators) == 1:
+                g = lc.generators[0]
+                if not g.is_async and isinstance(g.target, ast.Name) and g.target.id != param \
+                        and isinstance(g.iter, ast.Name) and g.iter.id == 'periodic_functions' and param != 'periodic_functions' \
+                        and g.target.id != 'periodic_functions' and len(g.ifs) == 1 \
+                        and isinstance(lc.elt, ast.Name) and lc.elt.id == g.target.id \
+                        and _is_wavetype_test(g.ifs[0], g.target.id, param):
+                    return (f'match filter {test_coq} periodic_functions with\n'
+                            f'  | x :: _ => inl x\n  | [] => {err(e)}\n  end')
+    # shape 2: for pf in periodic_functions: if <test>: return pf / raise E(..)
+    if len(body) == 2 and isinstance(body[0], ast.For):
+        f = body[0]
+        e = _raised_class(body[1], exceptions)
+        if e and not f.orelse and isinstance(f.target, ast.Name) and f.target.id not in (param, 'periodic_functions') \
+                and isinstance(f.iter, ast.Name) and f.iter.id == 'periodic_functions' and param != 'periodic_functions' \
+                and len(f.body) == 1 and isinstance(f.body[0], ast.If) and not f.body[0].orelse \
+                and _is_wavetype_test(f.body[0].test, f.target.id, param) and len(f.body[0].body) == 1 \
+                and isinstance(f.body[0].body[0], ast.Return) and isinstance(f.body[0].body[0].value, ast.Name) \
+                and f.body[0].body[0].value.id == f.target.id:
+            return (f'match find {test_coq} periodic_functions with\n'
+                    f'  | Some x => inl x\n  | None => {err(e)}\n  end')
+    raise Unsupported(f'{w}: {fn.name} is of neither accepted shape (see the docstring of tools/gen_periodic.py)')
 
 
 # ---- classes and tables ---------------------------------------------------------------------------------------------
@@ -387,13 +544,41 @@ def harmonics_class(cls, path):
 def check_pinned(tree, path):
     cl, fn = classes(tree), functions(tree)
     exp = ast.parse(PINNED_ABSTRACT).body[0]
-    if ABSTRACT not in cl or _dump(cl[ABSTRACT]) != _dump(exp):
-        raise Unsupported(f'{path}: class {ABSTRACT} differs from the hand-modelled text (Model/Harmonics.v)')
+    if ABSTRACT not in cl:
+        raise Unsupported(f'{path}: class {ABSTRACT} not found')
+    c = cl[ABSTRACT]
+    names = [st.name for st in c.body if isinstance(st, ast.FunctionDef)]
+    if sorted(names) != sorted(GENERIC_METHODS + ABSTRACT_METHODS):
+        raise Unsupported(f'{where(c, path)}: methods of {ABSTRACT} are {names}, expected {GENERIC_METHODS + ABSTRACT_METHODS}')
+    rest = ast.ClassDef(name=c.name, bases=c.bases, keywords=c.keywords, decorator_list=c.decorator_list, type_params=[],
+                        body=[st for st in c.body if not (isinstance(st, ast.FunctionDef) and st.name in GENERIC_METHODS)])
+    if _dump(rest) != _dump(exp):
+        raise Unsupported(f'{path}: class {ABSTRACT} (header, fields, abstract methods) differs from the hand-modelled text '
+                          f'(Model/Harmonics.v)')
     for e in ast.parse(PINNED_FUNCS).body:
         if e.name not in fn or _dump(fn[e.name]) != _dump(e):
             raise Unsupported(f'{path}: function {e.name} differs from the hand-modelled text (Model/Harmonics.v)')
     if _dump(module_assign(tree, 'periodic_functions')) != _dump(ast.parse(PINNED_ASSIGN).body[0].value):
         raise Unsupported(f'{path}: periodic_functions is not {PINNED_ASSIGN}')
+
+
+def generic_methods(cls, path, hfields):
+    """the five generic methods of AbstractHarmonicCoefficients as functions of the two abstract ones"""
+    mp = 'm_amplitude_coefficient m_phase_coefficient'
+    base = {'_amplitude_coefficient': 'm_amplitude_coefficient', '_phase_coefficient': 'm_phase_coefficient'}
+    upper = dict(base, amplitude=f'abstract_amplitude O {mp}', phase=f'abstract_phase O {mp}')
+    d = {st.name: st for st in cls.body if isinstance(st, ast.FunctionDef)}
+    out = []
+    for name in GENERIC_METHODS:
+        f = d[name]
+        want = 'C' if name == 'c' else 'R'
+        methods = base if name in ('amplitude', 'phase') else upper
+        # the dataclass fields are not readable here: Model/Harmonics.v abstracts from them
+        body = coefficient_body(f, path, [], methods, want)
+        ty = 'RT O * RT O' if want == 'C' else 'RT O'
+        out.append(f'(* {ABSTRACT}.{name}  ({REL}:{f.lineno}) *)\n'
+                   f'Definition abstract_{name} (O : rops) ({mp} : Z -> RT O) (n : Z) : {ty} :=\n  {body}.\n')
+    return out
 
 
 def generate(src_root):
@@ -445,6 +630,8 @@ def generate(src_root):
 
     # harmonic parameter fields from the pinned abstract class
     hfields = [n for n, _, _ in ann_fields(cl[ABSTRACT], path)[0]]
+    gdefs = generic_methods(cl[ABSTRACT], path, hfields)
+    lookup = lookup_body(functions(tree)['periodic_function'], path, EXPECTED_EXCEPTIONS)
 
     waves, defs = [], []
     for tn, hn in pairs:
@@ -481,10 +668,13 @@ def generate(src_root):
     out = [
         f'(* GENERATED by tools/gen_periodic.py from {REL} — do not edit. *)',
         'From Coq Require Import ZArith NArith List Bool.',
-        'From CC Require Import Model.Rops.',
+        'From CC Require Import Model.Network Model.Rops.',
         'Import ListNotations.',
         '',
         *defs,
+        '(* ---- the generic methods of AbstractHarmonicCoefficients, as functions of self._amplitude_coefficient and',
+        '   self._phase_coefficient; complex numbers are pairs (re, im), np.exp(+-1j*y) = (cos +-y, sin +-y) ---- *)',
+        *gdefs,
         '(* ---- tables; a class is named by its position among the keys (time-function classes) resp. the values',
         '   (harmonics classes) of fourier_series_mapping ---- *)',
         table('time_classes', 'list (list N)', [coq_string_codes(t) + f' (* {t} *)' for t in tnames]),
@@ -501,5 +691,15 @@ def generate(src_root):
         dispatch('amplitude_coefficient', hty, 'amplitude',
                  'harmonics class j -> its _amplitude_coefficient (amplitude0 phase0 offset0 n)'),
         dispatch('phase_coefficient', hty, 'phase', 'harmonics class j -> its _phase_coefficient'),
+        '(* <class i>.wavetype: the dataclass default recorded in [wavetypes] *)',
+        'Fixpoint class_attr_in (l : list (list N * N)) (i : N) : option (list N) :=',
+        '  match l with [] => None | (w, k) :: r => if N.eqb k i then Some w else class_attr_in r i end.',
+        'Definition class_wavetype (i : N) : option (list N) := class_attr_in wavetypes i.',
+        '',
+        f'(* periodic_function(wavetype)  ({REL}:{functions(tree)["periodic_function"].lineno}):',
+        '   inl <index of the class returned> | inr <name of the exception class raised> *)',
+        'Definition lookup_periodic_function (v_wavetype : list N) : N + list N :=',
+        '  ' + lookup + '.',
+        '',
     ]
     return {'Periodic.v': '\n'.join(out)}
